@@ -638,6 +638,17 @@ Qed.
 
 (** * Part C — alignments *)
 
+Lemma name_eqb_eq a : forall b, name_eqb a b = true <-> a = b.
+Proof.
+  induction a as [|x a IH]; intros [|y b]; cbn [name_eqb]; split; intros H; try discriminate; try reflexivity.
+  - apply andb_prop in H. destruct H as [H1 H2]. apply IH in H2. f_equal; [lia|exact H2].
+  - injection H as -> ->. apply andb_true_intro. split; [lia|apply IH; reflexivity].
+Qed.
+
+Lemma name_eqb_refl a : name_eqb a a = true.
+Proof. apply name_eqb_eq. reflexivity. Qed.
+
+
 Lemma mapM_ok {A B} (f : A -> res B) (h : A -> B) l :
   (forall x, In x l -> f x = Ok (h x)) -> mapM f l = Ok (map h l).
 Proof.
@@ -693,14 +704,13 @@ Proof.
 Qed.
 
 Lemma mk_align_ok a k : a <> [] -> Forall (fun nr => RowWF (snd nr) /\ skind (adata (snd nr)) = k) a -> rect (astr a) ->
-  mk_align a = Ok a /\ AlnWF a /\ al_kind a = k.
+  NoDup (map fst a) -> mk_align a = Ok a /\ AlnWF a /\ al_kind a = k.
 Proof.
-  intros Hne Hwf Hr.
+  intros Hne Hwf Hr Hnd.
   assert (Hk : al_kind a = k).
   { destruct a as [|[n r] t]; [congruence|]. cbn [al_kind]. apply Forall_inv in Hwf. cbn [snd] in Hwf. apply Hwf. }
   unfold mk_align. rewrite one_length_rect; try assumption.
-  - split; [reflexivity|]. split; [|exact Hk]. split; [exact Hne|]. split; [|exact Hr].
-    rewrite Hk. exact Hwf.
+  - split; [reflexivity|]. split; [|exact Hk]. split; [exact Hne|]. split; [rewrite Hk; exact Hwf|]. split; [exact Hr|exact Hnd].
   - eapply Forall_impl; [|exact Hwf]. intros x [H _]. exact H.
 Qed.
 
@@ -712,7 +722,7 @@ Lemma map_rowsM_spec (f : arow -> res arow) (g : list Z -> list Z) k' a :
   exists a', bind (map_rowsM f a) mk_align = Ok a' /\ AlnWF a' /\ al_kind a' = k' /\
              astr a' = map_rows g (astr a) /\ map fst a' = map fst a.
 Proof.
-  intros (Hne & Hwf & Hr) Hu Hf.
+  intros (Hne & Hwf & Hr & Hnd) Hu Hf.
   assert (Hlen : Forall (fun nr => zlen (row_str (snd nr)) = slen (astr a)) a).
   { unfold rect, all_len, astr in Hr. rewrite Forall_map in Hr. exact Hr. }
   unfold map_rowsM.
@@ -735,6 +745,7 @@ Proof.
   { clear -Ha. induction Ha as [|x y l l' (_ & W & K & _) _ IH]; constructor; auto. }
   destruct (mk_align_ok a' k' Hne' Hwf') as (E & W & K).
   { rewrite Hastr. apply rect_map_rows; assumption. }
+  { rewrite Hnames. exact Hnd. }
   exists a'. auto.
 Qed.
 
@@ -792,11 +803,11 @@ Proof. induction 1; cbn [length]; congruence. Qed.
 
 (** ** rebuilding an alignment from strings ([take_positions], [sample], [to_type], ...) *)
 Lemma rebuild_spec k names strs n :
-  names <> [] -> length names = length strs -> Forall (fun s => zlen s = n) strs ->
+  names <> [] -> length names = length strs -> Forall (fun s => zlen s = n) strs -> NoDup names ->
   exists a', rebuild k names strs = Ok a' /\ AlnWF a' /\ al_kind a' = k /\ astr a' = combine names strs /\
              map fst a' = names.
 Proof.
-  intros Hne Hlen Hn. unfold rebuild.
+  intros Hne Hlen Hn Hnd. unfold rebuild.
   destruct (mapM_exists (row_of_string k) (fun s r => RowWF r /\ skind (adata r) = k /\ row_str r = s) strs)
     as (rows & E & H2).
   { intros s _. destruct (row_of_string_spec k s) as (r & Er & W & K & S). exists r. auto. }
@@ -820,15 +831,16 @@ Proof.
     clear -Hn'. revert names. induction Hn' as [|t l Ht _ IH]; intros names.
     - destruct names; constructor.
     - destruct names as [|x names]; [constructor|]. cbn [combine]. constructor; [cbn [snd]; lia|apply IH]. }
-  destruct (mk_align_ok _ k Hne' Hwf Hrect) as (Em & W & K).
-  exists (combine names rows). split; [exact Em|]. split; [exact W|]. split; [exact K|]. split; [exact Hastr|].
-  clear -Hlen Hl2. revert strs rows Hlen Hl2. induction names as [|nm names IH]; intros strs rows Hlen Hl2; [reflexivity|].
-  destruct rows as [|r rows]; [destruct strs; cbn [length] in *; lia|].
-  destruct strs as [|s strs]; [cbn [length] in *; lia|].
-  cbn [combine map fst]. f_equal. apply (IH strs rows); cbn [length] in *; lia.
+  assert (Hfst : map fst (combine names rows) = names).
+  { clear -Hlen Hl2. revert strs rows Hlen Hl2. induction names as [|nm names IH]; intros strs rows Hlen Hl2; [reflexivity|].
+    destruct rows as [|r rows]; [destruct strs; cbn [length] in *; lia|].
+    destruct strs as [|s strs]; [cbn [length] in *; lia|].
+    cbn [combine map fst]. f_equal. apply (IH strs rows); cbn [length] in *; lia. }
+  destruct (mk_align_ok _ k Hne' Hwf Hrect) as (Em & W & K); [rewrite Hfst; exact Hnd|].
+  exists (combine names rows). split; [exact Em|]. split; [exact W|]. split; [exact K|]. split; [exact Hastr|exact Hfst].
 Qed.
 
-Lemma combine_fst_map {A B} (f : A -> B) (l : list (Z * A)) :
+Lemma combine_fst_map {N A B} (f : A -> B) (l : list (N * A)) :
   combine (map fst l) (map (fun nr => f (snd nr)) l) = map (fun nr => (fst nr, f (snd nr))) l.
 Proof. induction l as [|[n x] l IH]; [reflexivity|]. cbn [map combine fst snd]. now rewrite IH. Qed.
 
@@ -838,7 +850,7 @@ Lemma rebuild_rows_spec k a (h : arow -> res (list Z)) (g : list Z -> list Z) :
   exists a', bind (mapM (fun nr => h (snd nr)) a) (fun strs => rebuild k (map fst a) strs) = Ok a' /\
              AlnWF a' /\ al_kind a' = k /\ astr a' = map_rows g (astr a) /\ map fst a' = map fst a.
 Proof.
-  intros (Hne & Hwf & Hr) Hu Hh.
+  intros (Hne & Hwf & Hr & Hnd) Hu Hh.
   assert (Hlen : Forall (fun nr => zlen (row_str (snd nr)) = slen (astr a)) a).
   { unfold rect, all_len, astr in Hr. rewrite Forall_map in Hr. exact Hr. }
   rewrite (mapM_ok (fun nr => h (snd nr)) (fun nr => g (row_str (snd nr))) a).
@@ -851,6 +863,7 @@ Proof.
   - now rewrite !map_length.
   - rewrite Forall_map. eapply Forall_impl; [|exact Hlen]. intros [n r] Hl. cbn [snd] in *. apply Hu.
     rewrite Hl. rewrite Ea. reflexivity.
+  - exact Hnd.
   - exists a'. split; [exact E|]. split; [exact W|]. split; [exact K|]. split; [|exact N].
     rewrite S. transitivity (map (fun nr => (fst nr, g (row_str (snd nr)))) a).
     + apply (combine_fst_map (fun r => g (row_str r))).
@@ -1401,21 +1414,21 @@ Lemma find_row_astr x a : find_row x (astr a) = option_map row_str (find_orow x 
 Proof.
   unfold find_row, find_orow, astr.
   induction a as [|[n r] t IH]; [reflexivity|]. cbn [map filter fst snd].
-  destruct (n =? x); [reflexivity|exact IH].
+  destruct (name_eqb n x); [reflexivity|exact IH].
 Qed.
 
 Lemma find_orow_In x a r : find_orow x a = Some r -> In (x, r) a.
 Proof.
   unfold find_orow. induction a as [|[n r0] t IH]; [discriminate|]. cbn [filter fst].
-  destruct (n =? x) eqn:E.
-  - intros H. injection H as <-. left. f_equal. lia.
+  destruct (name_eqb n x) eqn:E.
+  - intros H. injection H as <-. left. f_equal. apply name_eqb_eq, E.
   - intros H. right. apply IH, H.
 Qed.
 
 Lemma AlnWF_In a n r : AlnWF a -> In (n, r) a ->
   RowWF r /\ skind (adata r) = al_kind a /\ zlen (row_str r) = slen (astr a).
 Proof.
-  intros (Hne & Hwf & Hr) Hin. rewrite Forall_forall in Hwf. destruct (Hwf _ Hin) as [W K]. cbn [snd] in *.
+  intros (Hne & Hwf & Hr & _) Hin. rewrite Forall_forall in Hwf. destruct (Hwf _ Hin) as [W K]. cbn [snd] in *.
   split; [exact W|]. split; [exact K|].
   unfold rect, all_len, astr in Hr. rewrite Forall_map in Hr. rewrite Forall_forall in Hr. apply (Hr _ Hin).
 Qed.
@@ -1486,10 +1499,10 @@ Proof.
   pose proof (Forall_inv H) as H0. cbn [snd] in H0. rewrite H0. exact H.
 Qed.
 
-Lemma AlnWF_sub a b : AlnWF a -> b <> [] -> (forall x, In x b -> In x a) ->
+Lemma AlnWF_sub a b : AlnWF a -> b <> [] -> (forall x, In x b -> In x a) -> NoDup (map fst b) ->
   mk_align b = Ok b /\ AlnWF b /\ al_kind b = al_kind a.
 Proof.
-  intros Ha Hne Hsub. apply mk_align_ok; [exact Hne| |].
+  intros Ha Hne Hsub Hnd. apply mk_align_ok; [exact Hne| | |exact Hnd].
   - apply Forall_forall. intros [n r] Hin. destruct (AlnWF_In a n r Ha (Hsub _ Hin)) as (W & K & _). cbn [snd]. auto.
   - apply (all_len_rect (slen (astr a))).
     + destruct b; [congruence|discriminate].
@@ -1497,97 +1510,166 @@ Proof.
       apply (AlnWF_In a n r Ha (Hsub _ Hin)).
 Qed.
 
-Lemma astr_filter (p : Z -> bool) a :
+Lemma astr_filter (p : name -> bool) a :
   astr (filter (fun nr => p (fst nr)) a) = filter (fun nr => p (fst nr)) (astr a).
 Proof.
   unfold astr. induction a as [|[n r] t IH]; [reflexivity|]. cbn [filter map fst snd].
   destruct (p n); cbn [map fst snd]; now rewrite IH.
 Qed.
 
+Lemma NoDup_map_filter {A} (p : name * A -> bool) (l : list (name * A)) : NoDup (map fst l) -> NoDup (map fst (filter p l)).
+Proof.
+  induction l as [|x l IH]; intros H; [constructor|]. cbn [map] in H. inversion H as [|? ? Hn Hd]; subst.
+  cbn [filter]. destruct (p x); [|apply IH, Hd]. cbn [map]. constructor; [|apply IH, Hd].
+  intros Hin. apply Hn. apply in_map_iff in Hin. destruct Hin as (y & E & Hy). apply filter_In in Hy.
+  apply in_map_iff. exists y. tauto.
+Qed.
+
 Lemma al_takeseqs_negate_spec a names : AlnWF a ->
-  match filter (fun nr => negb (zmem (fst nr) names)) (astr a) with
-  | [] => filter (fun nr => negb (zmem (fst nr) names)) a = []
-  | s' => exists a', mk_align (filter (fun nr => negb (zmem (fst nr) names)) a) = Ok a' /\ AlnWF a' /\
+  match filter (fun nr => negb (nmem (fst nr) names)) (astr a) with
+  | [] => filter (fun nr => negb (nmem (fst nr) names)) a = []
+  | s' => exists a', mk_align (filter (fun nr => negb (nmem (fst nr) names)) a) = Ok a' /\ AlnWF a' /\
                      al_kind a' = al_kind a /\ astr a' = s'
   end.
 Proof.
-  intros Ha. rewrite <- (astr_filter (fun x => negb (zmem x names)) a).
-  set (b := filter (fun nr => negb (zmem (fst nr) names)) a).
+  intros Ha. rewrite <- (astr_filter (fun x => negb (nmem x names)) a).
+  set (b := filter (fun nr => negb (nmem (fst nr) names)) a).
   destruct b as [|x b'] eqn:Eb; [reflexivity|]. cbn [astr map]. fold (astr b').
   destruct (AlnWF_sub a (x :: b') Ha ltac:(discriminate)) as (E & W & K).
   { intros y Hy. rewrite <- Eb in Hy. apply filter_In in Hy. apply Hy. }
+  { rewrite <- Eb. apply NoDup_map_filter. apply Ha. }
   exists (x :: b'). auto.
 Qed.
 
-Lemma al_takeseqs_spec a names : AlnWF a -> names <> [] ->
+Lemma al_takeseqs_spec a names : AlnWF a -> names <> [] -> NoDup names ->
   forallb (fun x => match find_orow x a with Some _ => true | None => false end) names = true ->
   let b := flat_map (fun x => match find_orow x a with Some r => [(x, r)] | None => [] end) names in
   mk_align b = Ok b /\ AlnWF b /\ al_kind b = al_kind a /\
   astr b = flat_map (fun x => match find_row x (astr a) with Some s => [(x, s)] | None => [] end) names.
 Proof.
-  intros Ha Hne Hall b.
+  intros Ha Hne Hnd Hall b.
   assert (Hastr : astr b = flat_map (fun x => match find_row x (astr a) with Some s => [(x, s)] | None => [] end) names).
   { subst b. clear. induction names as [|x t IH]; [reflexivity|]. cbn [flat_map]. unfold astr in *.
     rewrite map_app, IH. f_equal. rewrite find_row_astr. destruct (find_orow x a); reflexivity. }
+  assert (Hfst : map fst b = names).
+  { subst b. clear -Hall. induction names as [|x t IH]; [reflexivity|]. cbn [forallb] in Hall. apply andb_prop in Hall.
+    destruct Hall as [Hx Ht]. cbn [flat_map]. rewrite map_app, (IH Ht). destruct (find_orow x a); [reflexivity|discriminate]. }
   destruct (AlnWF_sub a b Ha) as (E & W & K).
-  - subst b. destruct names as [|x t]; [congruence|]. cbn [forallb] in Hall. apply andb_prop in Hall.
-    destruct Hall as [Hx _]. cbn [flat_map]. destruct (find_orow x a); [discriminate|discriminate].
+  - intros Eb. rewrite Eb in Hfst. cbn [map] in Hfst. congruence.
   - intros [n r] Hin. subst b. apply in_flat_map in Hin. destruct Hin as (x & _ & Hx).
     destruct (find_orow x a) as [r0|] eqn:Ef; [|contradiction]. destruct Hx as [Hx|[]]. injection Hx as <- <-.
     apply find_orow_In, Ef.
+  - rewrite Hfst. exact Hnd.
   - auto.
 Qed.
 
-(** ** concatenation *)
-Lemma add_rows_spec vr same k a : forall b,
-  Forall (fun nr => RowWF (snd nr) /\ skind (adata (snd nr)) = k) a -> Forall (fun nr => RowWF (snd nr)) b ->
-  length a = length b -> (same = false \/ v_noshortcut vr = true) ->
-  exists c, add_rows vr same a b = Ok c /\ Forall (fun nr => RowWF (snd nr) /\ skind (adata (snd nr)) = k) c /\
-            astr c = zip_app (astr a) (srows (astr b)) /\ map fst c = map fst a.
+(** ** concatenation: rows paired by name *)
+Lemma find_row_map_rows g n (a : salign) : find_row n (map_rows g a) = option_map g (find_row n a).
 Proof.
-  induction a as [|[n r1] a IH]; intros b Ha Hb Hl Hc.
-  - exists []. destruct b; repeat split; constructor.
-  - destruct b as [|[n2 r2] b]; [cbn [length] in Hl; lia|].
-    inversion Ha as [|? ? [W1 K1] Ha']; subst. inversion Hb as [|? ? W2 Hb']; subst. cbn [snd] in *.
-    destruct (row_add_spec vr same r1 r2 W1 W2 Hc) as (r & E & W & K & S).
-    destruct (IH b Ha' Hb' ltac:(cbn [length] in Hl; lia) Hc) as (c & Ec & Wc & Sc & Nc).
-    exists ((n, r) :: c). cbn [add_rows]. rewrite E. cbn [bind]. rewrite Ec. cbn [bind].
-    split; [reflexivity|]. split; [constructor; [cbn [snd]; split; [exact W|congruence]|exact Wc]|].
-    split; [|cbn [map fst]; now rewrite Nc].
-    cbn [astr map fst snd srows zip_app]. fold (astr a) (astr b) (astr c). rewrite S. f_equal. exact Sc.
+  unfold find_row, map_rows. induction a as [|[m s] t IH]; [reflexivity|]. cbn [map filter fst snd].
+  destruct (name_eqb m n); [reflexivity|exact IH].
 Qed.
 
-Lemma all_len_zip_app n m a : forall rows, all_len n a -> Forall (fun s => zlen s = m) rows -> all_len (n + m) (zip_app a rows).
+Lemma find_row_NoDup n s (a : salign) : NoDup (map fst a) -> In (n, s) a -> find_row n a = Some s.
 Proof.
-  induction a as [|[nm s] a IH]; intros rows Ha Hr; [constructor|].
-  destruct rows as [|t rows]; [constructor|]. inversion Ha; subst. inversion Hr; subst. cbn [zip_app].
-  constructor; [cbn [snd] in *; rewrite zlen_app; lia|]. apply IH; assumption.
+  unfold find_row. induction a as [|[m t] a IH]; intros Hnd Hin; [contradiction|]. cbn [map] in Hnd.
+  inversion Hnd as [|? ? Hn Hd]; subst. cbn [filter fst]. destruct Hin as [E|Hin].
+  - injection E as -> ->. rewrite name_eqb_refl. reflexivity.
+  - destruct (name_eqb m n) eqn:E.
+    + apply name_eqb_eq in E. subst m. exfalso. apply Hn. apply in_map_iff. exists (n, s). auto.
+    + apply IH; assumption.
+Qed.
+
+Lemma mapM_ok_in {A B} (f : A -> res B) (h : A -> B) l : (forall x, In x l -> f x = Ok (h x)) -> mapM f l = Ok (map h l).
+Proof. apply mapM_ok. Qed.
+
+Lemma s_add_named_map_rows g1 g2 (a : salign) : NoDup (map fst a) ->
+  s_add_named (map_rows g1 a) (map_rows g2 a) = Ok (map_rows (fun s => g1 s ++ g2 s) a).
+Proof.
+  intros Hnd. unfold s_add_named. set (B := map_rows g2 a).
+  rewrite (mapM_ok _ (fun nr => (fst nr, snd nr ++ match find_row (fst nr) B with Some t => t | None => [] end))).
+  - f_equal. unfold map_rows. rewrite map_map. apply map_ext_in. intros [n s] Hin. cbn [fst snd].
+    subst B. rewrite find_row_map_rows, (find_row_NoDup n s a Hnd Hin). reflexivity.
+  - intros [n s] Hin. cbn [fst snd]. unfold map_rows in Hin. apply in_map_iff in Hin. destruct Hin as ([n0 s0] & E & Hin).
+    cbn [fst snd] in E. injection E as <- <-. subst B. rewrite find_row_map_rows, (find_row_NoDup n0 s0 a Hnd Hin). reflexivity.
+Qed.
+
+Lemma map_rows_id (a : salign) : map_rows (fun s => s) a = a.
+Proof. unfold map_rows. rewrite <- (map_id a) at 2. apply map_ext. intros [? ?]; reflexivity. Qed.
+
+Lemma add_named_spec vr same k a : forall b,
+  Forall (fun nr => RowWF (snd nr) /\ skind (adata (snd nr)) = k) a -> Forall (fun nr => RowWF (snd nr)) b ->
+  (same = false \/ v_noshortcut vr = true) ->
+  match s_add_named (astr a) (astr b) with
+  | Ok s => exists c, add_named vr same a b = Ok c /\ Forall (fun nr => RowWF (snd nr) /\ skind (adata (snd nr)) = k) c /\
+                      astr c = s /\ map fst c = map fst a
+  | Err e => add_named vr same a b = Err e
+  end.
+Proof.
+  unfold s_add_named, add_named.
+  induction a as [|[n r1] a IH]; intros b Ha Hb Hc.
+  - cbn [astr map mapM]. exists []. repeat split; constructor.
+  - inversion Ha as [|? ? [W1 K1] Ha']; subst. cbn [snd] in *.
+    cbn [astr map mapM fst snd]. fold (astr a). rewrite find_row_astr.
+    destruct (find_orow n b) as [r2|] eqn:Ef; cbn [option_map bind]; [|reflexivity].
+    assert (W2 : RowWF r2).
+    { rewrite Forall_forall in Hb. apply (Hb (n, r2)). apply find_orow_In, Ef. }
+    destruct (row_add_spec vr same r1 r2 W1 W2 Hc) as (r & E & W & K & S). rewrite E. cbn [bind].
+    specialize (IH b Ha' Hb Hc).
+    destruct (mapM _ (astr a)) as [s|e].
+    + destruct IH as (c & Ec & Wc & Sc & Nc). rewrite Ec. cbn [bind].
+      exists ((n, r) :: c). split; [reflexivity|]. split; [constructor; [cbn [snd]; split; [exact W|congruence]|exact Wc]|].
+      split; [cbn [astr map fst snd]; fold (astr c); rewrite S, Sc; reflexivity|cbn [map fst]; now rewrite Nc].
+    + rewrite IH. reflexivity.
+Qed.
+
+Lemma all_len_add_named n m (a : salign) : forall b s, all_len n a -> all_len m b -> s_add_named a b = Ok s -> all_len (n + m) s.
+Proof.
+  unfold s_add_named. induction a as [|[nm x] a IH]; intros b s Ha Hb E.
+  - cbn [mapM] in E. injection E as <-. constructor.
+  - cbn [mapM fst snd] in E. destruct (find_row nm b) as [t|] eqn:Ef; [|discriminate]. cbn [bind] in E.
+    destruct (mapM _ a) as [s'|e] eqn:Em; [|discriminate]. cbn [bind] in E. injection E as <-.
+    inversion Ha; subst. constructor.
+    + cbn [snd] in *. rewrite zlen_app.
+      assert (zlen t = m).
+      { unfold all_len in Hb. rewrite Forall_forall in Hb. apply (Hb (nm, t)).
+        unfold find_row in Ef. destruct (filter _ b) as [|[n0 t0] f] eqn:Efl; [discriminate|]. injection Ef as ->.
+        assert (Hin : In (n0, t) (filter (fun nr => name_eqb (fst nr) nm) b)) by (rewrite Efl; left; reflexivity).
+        apply filter_In in Hin. destruct Hin as [Hin Hq]. cbn [fst] in Hq. apply name_eqb_eq in Hq. subst. exact Hin. }
+      lia.
+    + apply (IH b s'); assumption.
+Qed.
+
+Lemma s_add_named_names (a : salign) : forall b s, s_add_named a b = Ok s -> map fst s = map fst a.
+Proof.
+  unfold s_add_named. induction a as [|[nm x] a IH]; intros b s E.
+  - cbn [mapM] in E. injection E as <-. reflexivity.
+  - cbn [mapM fst snd] in E. destruct (find_row nm b); [|discriminate]. cbn [bind] in E.
+    destruct (mapM _ a) as [s'|e] eqn:Em; [|discriminate]. cbn [bind] in E. injection E as <-.
+    cbn [map fst]. f_equal. apply (IH b s' Em).
 Qed.
 
 Lemma al_add_spec vr same a b : AlnWF a -> Forall (fun nr => RowWF (snd nr)) b -> rect (astr b) ->
   zlen a = zlen b -> (same = false \/ v_noshortcut vr = true) ->
-  exists c, al_add vr same a b = Ok c /\ AlnWF c /\ al_kind c = al_kind a /\
-            astr c = zip_app (astr a) (srows (astr b)) /\ map fst c = map fst a.
+  match s_add_named (astr a) (astr b) with
+  | Ok s => exists c, al_add vr same a b = Ok c /\ AlnWF c /\ al_kind c = al_kind a /\ astr c = s /\ map fst c = map fst a
+  | Err e => al_add vr same a b = Err e
+  end.
 Proof.
   intros Ha Hb Hrb Hl Hc. unfold al_add. replace (zlen a =? zlen b) with true by lia. cbn [negb].
-  pose proof Ha as (Hne & Hwf & Hr).
-  destruct (add_rows_spec vr same (al_kind a) a b Hwf Hb ltac:(unfold zlen in Hl; lia) Hc) as (c & E & Wc & Sc & Nc).
-  rewrite E. cbn [bind].
+  pose proof Ha as (Hne & Hwf & Hr & Hnd).
+  pose proof (add_named_spec vr same (al_kind a) a b Hwf Hb Hc) as H.
+  destruct (s_add_named (astr a) (astr b)) as [s|e] eqn:Es; [|rewrite H; reflexivity].
+  destruct H as (c & E & Wc & Sc & Nc). rewrite E. cbn [bind].
   assert (Hnec : c <> []).
   { intros ->. destruct a; [congruence|discriminate]. }
   destruct (mk_align_ok c (al_kind a) Hnec Wc) as (Em & W & K).
-  - apply (all_len_rect (slen (astr a) + slen (astr b))).
-    + rewrite Sc. destruct a as [|[n r] a]; [congruence|]. destruct b as [|[n2 r2] b]; [unfold zlen in Hl; cbn [length] in Hl; lia|].
-      discriminate.
-    + rewrite Sc. apply all_len_zip_app; [exact Hr|]. unfold rect, all_len, srows in *. rewrite Forall_map. exact Hrb.
+  - rewrite Sc. apply (all_len_rect (slen (astr a) + slen (astr b))).
+    + intros ->. apply (f_equal (@length _)) in Sc. unfold astr in Sc. rewrite map_length in Sc. destruct c; [congruence|discriminate].
+    + apply (all_len_add_named _ _ (astr a) (astr b)); assumption.
+  - rewrite Nc. exact Hnd.
   - exists c. auto.
 Qed.
-
-Lemma zip_app_self a : zip_app a (srows a) = map_rows (fun s => s ++ s) a.
-Proof. unfold srows, map_rows. induction a as [|[n s] a IH]; [reflexivity|]. cbn [map zip_app fst snd]. now rewrite IH. Qed.
-
-Lemma zip_app_map_rows g1 g2 a : zip_app (map_rows g1 a) (srows (map_rows g2 a)) = map_rows (fun s => g1 s ++ g2 s) a.
-Proof. unfold srows, map_rows. induction a as [|[n s] a IH]; [reflexivity|]. cbn [map zip_app fst snd]. now rewrite IH. Qed.
 
 Lemma srows_combine names : forall rows, length names = length rows -> srows (combine names rows) = rows.
 Proof.
@@ -1695,7 +1777,7 @@ Lemma al_filtered_spec vr a p m : AlnWF a -> 0 < m ->
   end.
 Proof.
   intros Ha Hm. unfold al_filtered. replace (m <=? 0) with false by lia.
-  pose proof Ha as (Hne & Hwf & Hr).
+  pose proof Ha as (Hne & Hwf & Hr & Hnd).
   assert (Hs : map (fun nr => row_gapped (snd nr)) a = srows (astr a)).
   { unfold srows, astr. rewrite map_map. apply map_ext_in. intros [n r] Hin. cbn [snd].
     apply row_gapped_spec. apply (AlnWF_In a n r Ha Hin). }
@@ -1743,18 +1825,19 @@ Definition op_ok (vr : variant) (k : kind) (s : salign) (o : aop) : Prop :=
   | OIndex i => (if v_negidx vr then - n <= i else 0 <= i) /\ i < n
   | ORc => True
   | OAddSelf => v_noshortcut vr = true
-  | OAddRows rows => exists m, Forall (fun t => zlen t = m) rows
+  | OAddRows other => NoDup (map fst other) /\ exists m, Forall (fun nr => zlen (snd nr) = m) other
   | OAddSlices x y x' y' => (slice_guard vr n (Some x) /\ slice_guard vr n (Some y)) /\
                             (slice_guard vr n (Some x') /\ slice_guard vr n (Some y'))
   | OTakePos cols negate => (negate = false -> Forall (idx_ok vr n) cols) /\
                             (negate = true -> v_negate_ok vr = true \/ k = KOther)
-  | OTakeSeqs _ _ => True
+  | OTakeSeqs arg negate => negate = false -> NoDup (norm_names arg)
   | OFilter _ m => 0 < m
   | ODegapRel _ => True
   | OSample locs m => 0 < m /\ Forall (fun l => 0 <= l /\ (l + 1) * m <= n) locs
   | OToRna | OToDna => k <> KOther
   | OToType => True
   | OWindow _ _ _ => True
+  | ORename mp => NoDup (map (rename_of mp) (map fst s))
   end.
 
 Lemma zlen_astr a : zlen (astr a) = zlen a.
@@ -1767,8 +1850,52 @@ Proof.
   replace (i >=? n) with false by lia. destruct (v_negidx vr); replace (i <? - n) with false by lia; reflexivity.
 Qed.
 
-Lemma map_fst_len {A B} (a : list (Z * A)) (b : list (Z * B)) : map fst a = map fst b -> zlen a = zlen b.
+Lemma map_fst_len {N A B} (a : list (N * A)) (b : list (N * B)) : map fst a = map fst b -> zlen a = zlen b.
 Proof. intros H. unfold zlen. rewrite <- (map_length fst a), <- (map_length fst b), H. reflexivity. Qed.
+
+Lemma combine_split_id {A B} (l : list (A * B)) : combine (map fst l) (map snd l) = l.
+Proof. induction l as [|[x y] l IH]; [reflexivity|]. cbn [map combine fst snd]. now rewrite IH. Qed.
+
+Lemma astr_names a : map fst (astr a) = map fst a.
+Proof. unfold astr. rewrite map_map. reflexivity. Qed.
+
+Lemma s_add_named_self (a : salign) : NoDup (map fst a) -> s_add_named a a = Ok (map_rows (fun s => s ++ s) a).
+Proof.
+  intros H. pose proof (s_add_named_map_rows (fun s => s) (fun s => s) a H) as E. rewrite map_rows_id in E. exact E.
+Qed.
+
+Lemma al_rename_spec a mp : AlnWF a -> NoDup (map (rename_of mp) (map fst a)) ->
+  exists a', bind (mapM (fun nr => bind (of_view (fresh (skind (adata (snd nr))) (realise (adata (snd nr))))) (fun d =>
+                                    Ok (rename_of mp (fst nr), mkRow (amap (snd nr)) d))) a) mk_align = Ok a' /\
+             AlnWF a' /\ al_kind a' = al_kind a /\ astr a' = map (fun nr => (rename_of mp (fst nr), snd nr)) (astr a).
+Proof.
+  intros Ha Hnd'. pose proof Ha as (Hne & Hwf & Hr & Hnd). remember (al_kind a) as k0 eqn:Ek0.
+  destruct (mapM_exists (fun nr => bind (of_view (fresh (skind (adata (snd nr))) (realise (adata (snd nr))))) (fun d =>
+                                     Ok (rename_of mp (fst nr), mkRow (amap (snd nr)) d)))
+              (fun nr nr' => fst nr' = rename_of mp (fst nr) /\ RowWF (snd nr') /\ skind (adata (snd nr')) = k0 /\
+                             row_str (snd nr') = row_str (snd nr)) a) as (a' & Ea & H2).
+  { intros [n r] Hin. destruct (AlnWF_In a n r Ha Hin) as ((Hm & Hd & Hp) & K & _). cbn [fst snd].
+    destruct (fresh_spec (skind (adata r)) (realise (adata r))) as (d' & E & Hd' & Hrl & Hk). rewrite E. cbn [of_view bind].
+    eexists. split; [reflexivity|]. cbn [fst snd]. split; [reflexivity|]. split; [|split; [cbn [adata]; congruence|]].
+    - split; [exact Hm|]. split; [exact Hd'|]. cbn [amap adata]. rewrite Hrl. exact Hp.
+    - unfold row_str. cbn [amap adata]. rewrite Hrl. reflexivity. }
+  rewrite Ea. cbn [bind].
+  assert (Hastr : astr a' = map (fun nr => (rename_of mp (fst nr), snd nr)) (astr a)).
+  { clear -H2. unfold astr. rewrite map_map.
+    induction H2 as [|[n r] [n' r'] l l' (E1 & _ & _ & E2) _ IH]; [reflexivity|].
+    cbn [map fst snd] in *. rewrite IH. subst. rewrite E2. reflexivity. }
+  assert (Hnames : map fst a' = map (rename_of mp) (map fst a)).
+  { clear -H2. induction H2 as [|x y l l' (E1 & _) _ IH]; [reflexivity|]. cbn [map]. now rewrite IH, E1. }
+  assert (Hne' : a' <> []) by (intros ->; inversion H2; subst; congruence).
+  assert (Hwf' : Forall (fun nr => RowWF (snd nr) /\ skind (adata (snd nr)) = k0) a').
+  { clear -H2. induction H2 as [|x y l l' (_ & W & K & _) _ IH]; constructor; [split; assumption|exact IH]. }
+  destruct (mk_align_ok a' k0 Hne' Hwf') as (E & W & K).
+  - rewrite Hastr. apply (all_len_rect (slen (astr a))).
+    + destruct (astr a) eqn:Es; [unfold astr in Es; destruct a; [congruence|discriminate]|discriminate].
+    + unfold all_len in *. rewrite Forall_map. eapply Forall_impl; [|exact Hr]. intros x Hx. exact Hx.
+  - rewrite Hnames. exact Hnd'.
+  - exists a'. auto.
+Qed.
 
 Lemma forallb_find_eq a names :
   forallb (fun x => match find_row x (astr a) with Some _ => true | None => false end) names
@@ -1784,8 +1911,8 @@ Theorem al_apply_spec vr a o : AlnWF a -> op_ok vr (al_kind a) (astr a) o ->
   | Err e => al_apply vr a o = Err e
   end.
 Proof.
-  intros Ha Hok. pose proof Ha as (Hne & Hwf & Hr).
-  destruct o as [x y|x y c|i| | |rows|x y x' y'|cols negate|names negate|p m|x|locs m| | | |w st i];
+  intros Ha Hok. pose proof Ha as (Hne & Hwf & Hr & Hnd).
+  destruct o as [x y|x y c|i| | |other|x y x' y'|cols negate|arg negate|p m|x|locs m| | | |w st i|mp];
     cbn [op_ok] in Hok; cbn [spec_apply al_apply fst snd].
   - (* slice *)
     destruct Hok as [Hx Hy]. destruct (al_slice_spec vr a x y Ha Hx Hy) as (a' & E & W & K & S & _). exists a'. auto.
@@ -1801,29 +1928,39 @@ Proof.
       try (destruct (al_rc_spec a Ha ltac:(congruence)) as (a' & E & W & K & S & _); exists a'; rewrite Ek in *; auto; fail).
     apply (al_rc_err a Ha Ek).
   - (* aln + aln *)
-    destruct (al_add_spec vr true a a Ha (AlnWF_rows a Ha) Hr eq_refl (or_intror Hok)) as (c & E & W & K & S & _).
-    exists c. rewrite zip_app_self in S. auto.
-  - (* aln + other *)
-    rewrite zlen_astr. destruct (zlen rows =? zlen a) eqn:El; cbn [negb]; [|reflexivity].
-    destruct Hok as (mm & Hrows).
-    destruct (rebuild_spec (al_kind a) (map fst a) rows mm) as (b & Eb & Wb & Kb & Sb & Nb).
-    { destruct a; [congruence|discriminate]. }
-    { rewrite map_length. unfold zlen in El. lia. }
-    { exact Hrows. }
-    rewrite Eb. cbn [bind].
-    destruct (al_add_spec vr false a b Ha (AlnWF_rows b Wb) ltac:(apply Wb)) as (c & E & W & K & S & _).
-    { apply map_fst_len. now rewrite Nb. }
-    { left. reflexivity. }
-    exists c. rewrite Sb, srows_combine in S by (rewrite map_length; unfold zlen in El; lia). auto.
+    pose proof (al_add_spec vr true a a Ha (AlnWF_rows a Ha) Hr eq_refl (or_intror Hok)) as H.
+    rewrite (s_add_named_self (astr a)) in H by (rewrite astr_names; exact Hnd).
+    destruct H as (c & E & W & K & S & _). exists c. auto.
+  - (* aln + other, rows paired by name *)
+    destruct Hok as (Hndo & mm & Hrows). rewrite zlen_astr.
+    destruct other as [|o0 ot] eqn:Eo.
+    { cbn [map]. unfold rebuild. cbn [mapM bind combine]. unfold mk_align. cbn [one_length].
+      destruct a as [|x a0]; [congruence|]. reflexivity. }
+    rewrite <- Eo in *.
+    destruct (rebuild_spec (al_kind a) (map fst other) (map snd other) mm) as (b & Eb & Wb & Kb & Sb & Nb).
+    { rewrite Eo. discriminate. }
+    { now rewrite !map_length. }
+    { rewrite Forall_map. exact Hrows. }
+    { exact Hndo. }
+    rewrite Eb. cbn [bind]. rewrite combine_split_id in Sb.
+    assert (Hzb : zlen b = zlen other) by (rewrite <- (zlen_astr b), Sb; reflexivity).
+    destruct (zlen a =? zlen other) eqn:El; cbn [negb].
+    + pose proof (al_add_spec vr false a b Ha (AlnWF_rows b Wb) ltac:(apply Wb) ltac:(lia) (or_introl eq_refl)) as H.
+      rewrite Sb in H. destruct (s_add_named (astr a) other) as [s0|e]; cbn [bind].
+      * destruct H as (c & E & W & K & S & _). exists c. auto.
+      * exact H.
+    + unfold al_add. replace (zlen a =? zlen b) with false by lia. reflexivity.
   - (* aln[x:y] + aln[x':y'] *)
     destruct Hok as [(A1 & A2) (B1 & B2)].
     destruct (al_slice_spec vr a (Some x) (Some y) Ha A1 A2) as (a1 & E1 & W1 & K1 & S1 & N1).
     destruct (al_slice_spec vr a (Some x') (Some y') Ha B1 B2) as (a2 & E2 & W2 & K2 & S2 & N2).
     rewrite E1. cbn [bind]. rewrite E2. cbn [bind].
-    destruct (al_add_spec vr false a1 a2 W1 (AlnWF_rows a2 W2) ltac:(apply W2)) as (c & E & W & K & S & _).
+    pose proof (al_add_spec vr false a1 a2 W1 (AlnWF_rows a2 W2) ltac:(apply W2)) as H.
+    rewrite S1, S2, s_add_named_map_rows in H by (rewrite astr_names; exact Hnd).
+    destruct H as (c & E & W & K & S & _).
     { apply map_fst_len. now rewrite N1, N2. }
     { left. reflexivity. }
-    exists c. rewrite S1, S2, zip_app_map_rows in S. split; [exact E|]. split; [exact W|]. split; [congruence|exact S].
+    exists c. split; [exact E|]. split; [exact W|]. split; [congruence|exact S].
   - (* take_positions *)
     destruct Hok as [Hc Hn].
     destruct (al_take_positions_spec vr a cols negate Ha Hc Hn) as (a' & E & W & K & S & _).
@@ -1831,17 +1968,17 @@ Proof.
     + exists a'. auto.
     + destruct (existsb_in_range vr _ _ (Hc eq_refl)) as [E1 E2]. rewrite E1, E2. exists a'. auto.
   - (* take_seqs *)
-    destruct negate.
+    cbv zeta. set (names := norm_names arg) in *. destruct negate.
     + pose proof (al_takeseqs_negate_spec a names Ha) as H.
-      destruct (filter (fun nr => negb (zmem (fst nr) names)) (astr a)) as [|s0 s'] eqn:Ef.
+      destruct (filter (fun nr => negb (nmem (fst nr) names)) (astr a)) as [|s0 s'] eqn:Ef.
       * rewrite H. reflexivity.
       * destruct H as (a' & E & W & K & S).
-        destruct (filter (fun nr => negb (zmem (fst nr) names)) a) as [|r0 r'] eqn:Efa.
+        destruct (filter (fun nr => negb (nmem (fst nr) names)) a) as [|r0 r'] eqn:Efa.
         { unfold mk_align in E. cbn [one_length] in E. discriminate. }
         exists a'. auto.
     + rewrite (forallb_find_eq a names). destruct (forallb _ names) eqn:Ef; [|reflexivity].
-      destruct names as [|x0 t]; [reflexivity|].
-      destruct (al_takeseqs_spec a (x0 :: t) Ha ltac:(discriminate) Ef) as (E & W & K & S).
+      destruct names as [|x0 t] eqn:En; [reflexivity|].
+      destruct (al_takeseqs_spec a (x0 :: t) Ha ltac:(discriminate) (Hok eq_refl) Ef) as (E & W & K & S).
       eexists. split; [exact E|]. split; [exact W|]. split; [exact K|exact S].
   - (* filtered *)
     destruct (m <=? 0) eqn:Em.
@@ -1872,6 +2009,9 @@ Proof.
     change (s_n_windows (slen (astr a)) w st) with (n_windows (slen (astr a)) w st).
     destruct ((0 <=? i) && (i <? n_windows (slen (astr a)) w st) && (0 <? w) && (0 <? st)) eqn:Ec; [|reflexivity].
     destruct (al_window_spec vr a w st i Ha Ec) as (a' & E & W & K & S & _). exists a'. auto.
+  - (* rename_seqs *)
+    rewrite astr_names in Hok.
+    destruct (al_rename_spec a mp Ha Hok) as (a' & E & W & K & S). exists a'. auto.
 Qed.
 
 (** ** chains of operations *)
@@ -1897,17 +2037,15 @@ Proof.
 Qed.
 
 (** the initial alignment built from named strings *)
-Lemma combine_split_id {A B} (l : list (A * B)) : combine (map fst l) (map snd l) = l.
-Proof. induction l as [|[x y] l IH]; [reflexivity|]. cbn [map combine fst snd]. now rewrite IH. Qed.
-
-Theorem al_init_spec k rows n : rows <> [] -> Forall (fun nr => zlen (snd nr) = n) rows ->
+Theorem al_init_spec k rows n : rows <> [] -> Forall (fun nr => zlen (snd nr) = n) rows -> NoDup (map fst rows) ->
   exists a, al_init k rows = Ok a /\ AlnWF a /\ al_kind a = k /\ astr a = rows.
 Proof.
-  intros Hne Hn. unfold al_init.
+  intros Hne Hn Hnd. unfold al_init.
   destruct (rebuild_spec k (map fst rows) (map snd rows) n) as (a & E & W & K & S & _).
   - destruct rows; [congruence|discriminate].
   - now rewrite !map_length.
   - rewrite Forall_map. exact Hn.
+  - exact Hnd.
   - exists a. rewrite combine_split_id in S. auto.
 Qed.
 
@@ -1929,28 +2067,28 @@ Qed.
 
 (** ** the pinned variants violate the unguarded statements: witnesses *)
 
-Definition witness_rows : list (Z * list Z) := [(0, [84; 65; 67; 45; 84]); (1, [84; 45; 67; 71; 84])].  (* TAC-T / T-CGT *)
+Definition witness_rows : list (name * list Z) := [([97], [84; 65; 67; 45; 84]); ([98], [84; 45; 67; 71; 84])].  (* TAC-T / T-CGT *)
 
-Definition strings_after (vr : variant) (o : aop) : res (list (Z * list Z)) :=
+Definition strings_after (vr : variant) (o : aop) : res (list (name * list Z)) :=
   bind (al_init KDna witness_rows) (fun a => bind (al_apply vr a o) (fun a' => Ok (al_strings a'))).
 
 (** C03-1: [aln + aln] through the [self.data is other.data] shortcut gives ragged, wrong rows *)
 Lemma add_self_witness :
-  strings_after pinned OAddSelf = Ok [(0, [84; 65; 67; 45; 84; 45]); (1, [84; 45; 67; 71; 84; 45])] /\
+  strings_after pinned OAddSelf = Ok [([97], [84; 65; 67; 45; 84; 45]); ([98], [84; 45; 67; 71; 84; 45])] /\
   spec_apply KDna witness_rows OAddSelf
-  = Ok (KDna, [(0, [84; 65; 67; 45; 84; 84; 65; 67; 45; 84]); (1, [84; 45; 67; 71; 84; 84; 45; 67; 71; 84])]).
+  = Ok (KDna, [([97], [84; 65; 67; 45; 84; 84; 65; 67; 45; 84]); ([98], [84; 45; 67; 71; 84; 84; 45; 67; 71; 84])]).
 Proof. split; vm_compute; reflexivity. Qed.
 
 (** C03-2: [take_positions(negate=True)] raises for a DNA alignment *)
 Lemma take_positions_negate_witness :
   strings_after pinned (OTakePos [0] true) = Err E_Type /\
-  spec_apply KDna witness_rows (OTakePos [0] true) = Ok (KDna, [(0, [65; 67; 45; 84]); (1, [45; 67; 71; 84])]).
+  spec_apply KDna witness_rows (OTakePos [0] true) = Ok (KDna, [([97], [65; 67; 45; 84]); ([98], [45; 67; 71; 84])]).
 Proof. split; vm_compute; reflexivity. Qed.
 
 (** C03-3: [aln[-1]] is empty instead of the last column *)
 Lemma index_negative_witness :
-  strings_after pinned (OIndex (-1)) = Ok [(0, []); (1, [])] /\
-  spec_apply KDna witness_rows (OIndex (-1)) = Ok (KDna, [(0, [84]); (1, [84])]).
+  strings_after pinned (OIndex (-1)) = Ok [([97], []); ([98], [])] /\
+  spec_apply KDna witness_rows (OIndex (-1)) = Ok (KDna, [([97], [84]); ([98], [84])]).
 Proof. split; vm_compute; reflexivity. Qed.
 
 (** C08-1 seen through the alignment: [aln[:9]] reports 9 columns *)
@@ -1966,26 +2104,31 @@ Lemma repaired_witnesses :
 Proof. repeat constructor; vm_compute; reflexivity. Qed.
 
 (** the hypotheses are satisfiable: a non-trivial chain within the guard *)
+Ltac nodup_tac := repeat (constructor; [cbn; intuition discriminate|]); constructor.
+
 Example chain_example :
   exists a, al_init KDna witness_rows = Ok a /\ AlnWF a /\
     chain_ok pinned (al_kind a, astr a)
-      [OSlice (Some 1) (Some 4); ORc; OTakePos [2; 0] false; OFilter (PGapFrac [45; 63] 0 1) 1; OAddSlices 0 1 0 1].
+      [OSlice (Some 1) (Some 4); ORc; OAddRows [([98], [65; 45]); ([97], [45; 67])]; OTakePos [2; 0] false;
+       OFilter (PGapFrac [45; 63] 0 1) 1; OAddSlices 0 1 0 1; ORename [([97], [98; 50])]; OTakeSeqs (NStr [98]) true].
 Proof.
   destruct (al_init_spec KDna witness_rows 5) as (a & E & W & K & S).
   - discriminate.
   - repeat constructor.
+  - cbn. nodup_tac.
   - exists a. split; [exact E|]. split; [exact W|]. rewrite K, S.
     cbn [chain_ok].
     repeat match goal with |- context [spec_keep (?k, ?r) ?o] =>
       let v := eval vm_compute in (spec_keep (k, r) o) in change (spec_keep (k, r) o) with v end.
     cbn [op_ok fst snd slice_guard]. unfold idx_ok. cbn.
-    repeat split; try lia; try discriminate; try (intros; discriminate); repeat constructor; try lia.
+    repeat split; try lia; try discriminate; try (intros; discriminate); try nodup_tac;
+      try (exists 2; repeat constructor); repeat constructor; try lia.
 Qed.
 
 (** * Part E — no character is altered other than by complementing or the T/U exchange *)
 
 Definition chars (a : salign) : list Z := concat (srows a).
-Definition added (o : aop) : list Z := match o with OAddRows rows => concat rows | _ => [] end.
+Definition added (o : aop) : list Z := match o with OAddRows other => concat (map snd other) | _ => [] end.
 
 Lemma In_firstn {A} (l : list A) : forall n y, In y (firstn n l) -> In y l.
 Proof. induction l as [|x l IH]; intros [|n] y H; cbn [firstn] in H; try contradiction. destruct H as [->|H]; [left; reflexivity|right; eapply IH; eauto]. Qed.
@@ -2047,9 +2190,22 @@ Qed.
 Lemma find_row_In x a s : find_row x a = Some s -> In (x, s) a.
 Proof.
   unfold find_row. induction a as [|[n s0] t IH]; [discriminate|]. cbn [filter fst].
-  destruct (n =? x) eqn:E.
-  - intros H. injection H as <-. left. f_equal. lia.
+  destruct (name_eqb n x) eqn:E.
+  - intros H. injection H as <-. left. f_equal. apply name_eqb_eq, E.
   - intros H. right. apply IH, H.
+Qed.
+
+Lemma chars_add_named (a : salign) : forall b s y, s_add_named a b = Ok s -> In y (chars s) -> In y (chars a ++ chars b).
+Proof.
+  unfold s_add_named. induction a as [|[nm x] a IH]; intros b s y E Hy.
+  - cbn [mapM] in E. injection E as <-. contradiction.
+  - cbn [mapM fst snd] in E. destruct (find_row nm b) as [t|] eqn:Ef; [|discriminate]. cbn [bind] in E.
+    destruct (mapM _ a) as [s'|e] eqn:Em; [|discriminate]. cbn [bind] in E. injection E as <-.
+    unfold chars, srows in *. cbn [map snd concat] in *. rewrite !in_app_iff in *. destruct Hy as [[Hy|Hy]|Hy].
+    + left. left. exact Hy.
+    + right. apply in_concat. exists t. split; [|exact Hy]. apply in_map_iff. exists (nm, t). split; [reflexivity|].
+      apply find_row_In, Ef.
+    + specialize (IH b s' y Em Hy). rewrite in_app_iff in IH. destruct IH as [IH|IH]; [left; right; exact IH|right; exact IH].
 Qed.
 
 Theorem chars_preserved_lemma k a o k' a' : spec_apply k a o = Ok (k', a') ->
@@ -2058,7 +2214,7 @@ Proof.
   intros H y Hy.
   assert (Hid : forall z, In z (chars a) -> exists x, In x (chars a ++ added o) /\ derived k x z).
   { intros z Hz. exists z. split; [apply in_or_app; left; exact Hz|left; reflexivity]. }
-  destruct o as [x y0|x y0 c|i| | |rows|x y0 x' y'|cols negate|names negate|p m|x|locs m| | | |w st i]; cbn [spec_apply] in H.
+  destruct o as [x y0|x y0 c|i| | |other|x y0 x' y'|cols negate|arg negate|p m|x|locs m| | | |w st i|mp]; cbn [spec_apply] in H.
   - injection H as <- <-. apply Hid. revert Hy. apply chars_sub. intros s z. apply In_py_slice.
   - destruct (c =? 0); [discriminate|]. injection H as <- <-. apply Hid. revert Hy. apply chars_sub. intros s z. apply In_py_slice.
   - destruct ((i <? - slen a) || (i >=? slen a)); [discriminate|]. injection H as <- <-. apply Hid. revert Hy.
@@ -2069,8 +2225,9 @@ Proof.
       split; [apply in_rev, Hx|reflexivity].
     + exists x. split; [apply in_or_app; left; exact Hx|right; left; reflexivity].
   - injection H as <- <-. apply Hid. revert Hy. apply chars_sub. intros s z Hz. apply in_app_or in Hz. tauto.
-  - destruct (negb (zlen rows =? zlen a)); [discriminate|]. injection H as <- <-.
-    exists y. split; [apply chars_zip_app, Hy|left; reflexivity].
+  - destruct (negb (zlen a =? zlen other)); [discriminate|].
+    destruct (s_add_named a other) as [r|e] eqn:Es; [|discriminate]. cbn [bind] in H. injection H as <- <-.
+    exists y. split; [apply (chars_add_named a other r y Es Hy)|left; reflexivity].
   - injection H as <- <-. apply Hid. revert Hy. apply chars_sub. intros s z Hz. apply in_app_or in Hz.
     destruct Hz as [Hz|Hz]; eapply In_py_slice; eauto.
   - destruct negate.
@@ -2079,7 +2236,7 @@ Proof.
       destruct (zmem i cols); [contradiction|eapply In_ssub; eauto].
     + destruct (existsb _ cols); [discriminate|]. injection H as <- <-. apply Hid. revert Hy. apply chars_sub.
       unfold take_cols. apply (sub_chars_flat_map (fun i s => ssub s i (i + 1))). intros i s z. apply In_ssub.
-  - destruct negate.
+  - cbv zeta in H. set (names := norm_names arg) in *. destruct negate.
     + destruct (filter _ a) as [|r0 r] eqn:Ef; [discriminate|]. injection H as <- <-. apply Hid. revert Hy.
       apply chars_subset. intros z Hz. rewrite <- Ef in Hz. apply filter_In in Hz. apply Hz.
     + destruct (forallb _ names); [|discriminate]. destruct names as [|n0 t]; [discriminate|]. injection H as <- <-.
@@ -2107,6 +2264,7 @@ Proof.
       * exists x. split; [apply in_or_app; left; exact Hx|right; right; right; reflexivity].
   - injection H as <- <-. apply Hid, Hy.
   - destruct (_ && _); [|discriminate]. injection H as <- <-. apply Hid. revert Hy. apply chars_sub. intros s z. apply In_ssub.
+  - injection H as <- <-. apply Hid. unfold chars, srows in *. rewrite map_map in Hy. exact Hy.
 Qed.
 
 
